@@ -35,8 +35,8 @@ void h_string_repeat(void) {
   cfun_string_repeat(g_argc, argv);
   REACH("string/repeat returns");
   if (REP(argv) == 0) REACH("string/repeat returns the empty string for n == 0");
-  if (REP(argv) == 3 && g_v0.len > 2) REACH("string/repeat returns three copies");
-  if (REP(argv) == 3 && g_v0.len == 0) REACH("string/repeat returns for the empty string repeated");
+  if (REP(argv) == LIB_MAXREP && g_v0.len > 2) REACH("string/repeat returns the maximal number of copies");
+  if (REP(argv) == LIB_MAXREP && g_v0.len == 0) REACH("string/repeat returns for the empty string repeated");
 }
 
 /* ---- (string/join parts &opt sep): parts is an array or tuple of byte sequences (any other element raises); result =
